@@ -132,17 +132,21 @@ int simfs_fd_mode(int fd) { return (fd >= FS_FD_BASE && fd < FS_FD_MAX && fsfd[f
    j-th time THIS file was opened", not "what happened to the k-th open of the run" -- how many opens a parse makes, and in which order,
    is the library's business */
 #define OPENLOG_MAX 1200
-static struct { char path[160]; int how; } openlog[OPENLOG_MAX];
+static struct { char path[160]; int how, sid; } openlog[OPENLOG_MAX];      /* sid: the number of the stream this open produced (simfd_last_cookie_id) */
+int simfs_openlog_last_sid;              /* set by simfs_openlog_get: the stream of the entry it just answered for (0: none) */
 static int nopenlog;
 void simfs_openlog_reset(void) { nopenlog = 0; }
-static void openlog_add(const char *path, int how) { if (nopenlog < OPENLOG_MAX) { char np[PATH_MAX]; norm(path, np); snprintf(openlog[nopenlog].path, sizeof(openlog[nopenlog].path), "%s", np); openlog[nopenlog].how = how; nopenlog++; } }
+static int openlog_added;
+static void openlog_add(const char *path, int how) { openlog_added = nopenlog < OPENLOG_MAX; if (nopenlog < OPENLOG_MAX) { char np[PATH_MAX]; norm(path, np); snprintf(openlog[nopenlog].path, sizeof(openlog[nopenlog].path), "%s", np); openlog[nopenlog].how = how; openlog[nopenlog].sid = 0; nopenlog++; } }
+static FILE *openlog_stream(FILE *fp) { if (fp && openlog_added && nopenlog > 0) openlog[nopenlog - 1].sid = simfd_last_cookie_id(); return fp; }
 /* outcome of the j-th (0-based) fopen of a file whose normalised path ends in /name: 0 scripted failure, 1 nothing scripted, 2 scripted "opens but unreadable"; -1 never opened */
 int simfs_openlog_get(const char *name, int j)
 {
     size_t nl = strlen(name);
+    simfs_openlog_last_sid = 0;
     for (int i = 0; i < nopenlog; i++) {
         size_t pl = strlen(openlog[i].path);
-        if (pl >= nl && !strcmp(openlog[i].path + pl - nl, name) && (pl == nl || openlog[i].path[pl - nl - 1] == '/') && j-- == 0) return openlog[i].how;
+        if (pl >= nl && !strcmp(openlog[i].path + pl - nl, name) && (pl == nl || openlog[i].path[pl - nl - 1] == '/') && j-- == 0) { simfs_openlog_last_sid = openlog[i].sid; return openlog[i].how; }
     }
     return -1;
 }
@@ -167,15 +171,15 @@ FILE *sim_fopen(const char *path, const char *mode)
     if (nodes[i].isdir) {
         /* fopen("r") of a directory succeeds on Linux, reads fail with EISDIR: model as empty unreadable stream */
         tr_printf("fopen %.80s (directory)", path);
-        return simfd_cookie_stream_unreadable();
+        return openlog_stream(simfd_cookie_stream_unreadable());
     }
     if (!(nodes[i].mode & 0400)) { simfs_fopen_failed++; errno = EACCES; tr_printf("fopen %.80s -> EACCES", path); return NULL; }
     if (f >= 0 && F_OUT(f) == FO_FULL && F_PARAM(f) == 1) {     /* scripted: the open succeeds, no byte can be read */
         tr_printf("fopen %.80s (unreadable)", path);
-        return simfd_cookie_stream_unreadable();
+        return openlog_stream(simfd_cookie_stream_unreadable());
     }
     tr_printf("fopen %.80s len=%zu", path, nodes[i].len);
-    return simfd_cookie_stream(nodes[i].data, nodes[i].len, 1, 0);
+    return openlog_stream(simfd_cookie_stream(nodes[i].data, nodes[i].len, 1, 0));
 }
 static int fs_close(int fd)
 {
